@@ -211,7 +211,14 @@ func c08pint(annot obiseq.Annotation, key string) (int, bool) {
 }
 
 func c08peval(r *verifkit.Result, c *c08pcase) (out []c08pviol) {
+	ovf := c08poverflowClass(c)
 	add := func(key, format string, a ...any) {
+		if ovf {
+			// same defect, same key as in part 0: every sum through a column of two differing
+			// quality-0 bases wraps around (mismatch table entry not finite)
+			format = "[" + key + "] " + format
+			key = "PEAlign/score-overflow:two-quality-0-bases-mismatch"
+		}
 		out = append(out, c08pviol{key, c08pdesc(c) + " :: " + fmt.Sprintf(format, a...)})
 	}
 	la, lb := len(c.A), len(c.B)
@@ -426,6 +433,21 @@ func c08pclamp(v int) int {
 		return 1 << 40
 	}
 	return v
+}
+
+// c08poverflowClass: the pair can put two differing bases in one column whose mismatch table entry
+// is not a finite score (NaN converted to int): the implementation's sums wrap around.
+func c08poverflowClass(c *c08pcase) bool {
+	_, mst, pmt := obialign.VerifC08Tables()
+	for i, qa := range c.QA {
+		for j, qb := range c.QB {
+			v := mst[qa][qb]
+			if (v < -(1<<40) || v > 1<<40) && int(pmt[c.A[i]&31][c.B[j]&31]*100) != 100 {
+				return true
+			}
+		}
+	}
+	return false
 }
 
 func c08ppair(a, qa, b, qb byte, scale float64) int {
